@@ -266,6 +266,23 @@ class Inliner:
     def inline_stmt(self, s: ast.stmt, cls: str | None, host_names: set[str]) -> list[ast.stmt] | None:
         """The statements that replace `s` when its value is a call of a statement helper, else None."""
         call, mode = None, None
+        # `obj.m(helper(...))` as a statement: the helper (another scope: it cannot rebind `obj`) runs first either way, so this is
+        # `t = helper(...)` / `obj.m(t)`
+        if isinstance(s, ast.Expr) and isinstance(s.value, ast.Call) and isinstance(s.value.func, ast.Attribute) and _simple(s.value.func.value) \
+                and len(s.value.args) == 1 and not s.value.keywords and isinstance(s.value.args[0], ast.Call):
+            r0 = self.resolve(s.value.args[0], cls)
+            if r0 is not None and r0[0].expr is None:
+                tmp = f"_arg_{r0[0].fn.name.strip('_')}"
+                while tmp in host_names:
+                    tmp += "_"
+                first = ast.copy_location(ast.Assign(targets=[ast.Name(id=tmp, ctx=ast.Store())], value=s.value.args[0]), s)
+                host_names.add(tmp)
+                rep = self.inline_stmt(first, cls, host_names)
+                if rep is not None:
+                    outer = ast.copy_location(ast.Expr(value=ast.copy_location(
+                        ast.Call(func=s.value.func, args=[ast.copy_location(ast.Name(id=tmp, ctx=ast.Load()), s)], keywords=[]), s.value)), s)
+                    return rep + [outer]
+                return None
         if isinstance(s, ast.Assign) and len(s.targets) == 1 and isinstance(s.value, ast.Call):
             call, mode = s.value, "assign"
         elif isinstance(s, ast.AnnAssign) and isinstance(s.value, ast.Call):
@@ -324,8 +341,45 @@ class Inliner:
         host_names |= {n.id for x in out for n in ast.walk(x) if isinstance(n, ast.Name)}
         return out
 
+    def _private_to(self, comp: ast.AST, name: str) -> bool:
+        fn = getattr(self, "_host_fn", None)
+        if fn is None:
+            return False
+        inside = {id(x) for x in ast.walk(comp)}
+        return not any(((isinstance(x, ast.Name) and x.id == name) or (isinstance(x, ast.arg) and x.arg == name)) and id(x) not in inside for x in ast.walk(fn))
+
+    def _unroll_comprehension(self, s: ast.stmt, cls: str | None) -> list[ast.stmt] | None:
+        """`xs = [helper(v) for v in it]` with a statement helper  ->  `xs = []` / `for v in it: xs.append(helper(v))`, so that the
+        helper's body can be put in place (the loop variable must not be used elsewhere in the host: it leaves the comprehension)."""
+        if not (isinstance(s, ast.Assign) and len(s.targets) == 1 and isinstance(s.targets[0], ast.Name) and isinstance(s.value, ast.ListComp)
+                and len(s.value.generators) == 1 and not s.value.generators[0].ifs and not s.value.generators[0].is_async
+                and isinstance(s.value.generators[0].target, ast.Name) and isinstance(s.value.elt, ast.Call)):
+            return None
+        r = self.resolve(s.value.elt, cls)
+        if r is None or r[0].expr is not None:
+            return None
+        g = s.value.generators[0]
+        if any(isinstance(x, ast.Name) and x.id == s.targets[0].id for x in ast.walk(s.value)):
+            return None
+        init = ast.copy_location(ast.Assign(targets=[ast.Name(id=s.targets[0].id, ctx=ast.Store())], value=ast.copy_location(ast.List(elts=[], ctx=ast.Load()), s)), s)
+        app = ast.copy_location(ast.Expr(value=ast.copy_location(ast.Call(
+            func=ast.copy_location(ast.Attribute(value=ast.copy_location(ast.Name(id=s.targets[0].id, ctx=ast.Load()), s), attr="append", ctx=ast.Load()), s),
+            args=[s.value.elt], keywords=[]), s)), s)
+        loop = ast.copy_location(ast.For(target=g.target, iter=g.iter, body=[app], orelse=[]), s)
+        return [init, loop]
+
     def process_block(self, body: list[ast.stmt], cls: str | None, host_names: set[str], depth: int = 0) -> list[ast.stmt]:
         out: list[ast.stmt] = []
+        queue = list(body)
+        body = []
+        for s in queue:
+            u = self._unroll_comprehension(s, cls)
+            if u is not None and self._private_to(s.value, s.value.generators[0].target.id):
+                base = getattr(s, "lineno", 0)
+                _renumber(u, base, getattr(s, "col_offset", 0))
+                body.extend(u)
+            else:
+                body.append(s)
         for s in body:
             if isinstance(s, (ast.FunctionDef, ast.AsyncFunctionDef, ast.ClassDef)):
                 out.append(s)
@@ -360,6 +414,7 @@ class Inliner:
 
         def do_fn(fn: ast.FunctionDef, cls: str | None):
             host_names = {n.id for n in ast.walk(fn) if isinstance(n, ast.Name)} | {a.arg for a in ast.walk(fn) if isinstance(a, ast.arg)}
+            self._host_fn = fn
             fn.body = self.process_block(fn.body, cls, host_names)
             for n in ast.walk(fn):
                 if n is not fn and isinstance(n, ast.FunctionDef):
